@@ -10,7 +10,9 @@ Added in round 4: every operation of a dimension-aware cache hands `dimensions` 
 it computes (C05.o); the sanitiser of dimension values is an injective escape scheme (C05.p); a bulk
 load / store of a per-level cache groups the tiles by level (C05.d); a store replaces the whole row
 (C05.e).
-Added in round 5: a bulk load of the per-level caches asks every level, no short circuit (C05.q)."""
+Added in round 5: a bulk load of the per-level caches asks every level, no short circuit (C05.q).
+Added in round 7: the colour that names the shared file of single-colour tiles tells a transparent palette
+entry from an opaque one (C05.r, repair D53)."""
 import ast
 import re
 
@@ -1354,3 +1356,37 @@ def c05q(ctx):
                           fail='%s.%s does not ask every level: %s' % (cname, m, why))
     if n < 4:
         raise Undecided('only %d per-level bulk calls found' % n)
+
+
+@rule('C05.r', floor=3)
+def c05r(ctx):
+    """a tile that is stored once and linked from many addresses (`link_single_color_images`) is shared only between tiles that are the
+    same image: the name of the shared file is the colour is_single_color_image reports, so that colour has to tell apart everything
+    the pixels can differ in.  For a paletted image that is the palette entry *and* its transparency (image.info['transparency'], an
+    index or an alpha table): with the RGB entry alone a fully transparent tile and an opaque one share a file, and an address returns
+    bytes that were stored under another address (D53)"""
+    fn = ctx.fn('mapproxy/image/__init__.py:is_single_color_image')
+    g = fn.cfg
+    defs = Defs(fn.node)
+    is_p = lambda at: at.op == '==' and 'mode' in at.text and "'P'" in at.text
+    rets = g.find_stmts(lambda s: isinstance(s, ast.Return) and s.value is not None and const_value(s.value, 1) is not False)
+    p_rets = [n for n in rets if g.guarded(n, is_p, True)]
+    if not p_rets:
+        raise Undecided('is_single_color_image: no return under the mode == "P" test')
+    reads_tr = lambda x: isinstance(x, ast.Constant) and x.value == 'transparency'
+    reads_pal = lambda x: is_call(x, 'image.getpalette') or (isinstance(x, ast.Attribute) and x.attr == 'palette')
+    ok_pal = all(depends(g.stmt[n].value, reads_pal, defs, control=True) for n in p_rets)
+    ctx.check(ok_pal, 'is_single_color_image:paletted-colour-from-palette', 'the colour of a paletted image is looked up in its palette', fn,
+              fail='is_single_color_image reports the palette index of a paletted image as its colour')
+    ok_tr = any(depends(g.stmt[n].value, reads_tr, defs, control=True) for n in p_rets)
+    ctx.check(ok_tr, 'is_single_color_image:paletted-colour-names-transparency',
+              'the colour reported for a paletted image depends on the transparency of the palette entry', fn, g.stmt[p_rets[0]],
+              fail='the colour of a paletted image ignores the transparency of its palette entry: a transparent and an opaque '
+                   'single-colour tile share one linked file')
+    # the consumer: the shared file is named by every component of that colour
+    loc = ctx.fn('mapproxy/cache/file.py:FileCache._single_color_tile_location')
+    p_color = loc.params[1]
+    whole = [x for x in loc.walk() if isinstance(x, (ast.GeneratorExp, ast.ListComp)) and same(x.generators[0].iter, p_color)
+             and not x.generators[0].ifs]
+    ctx.check(bool(whole), 'FileCache._single_color_tile_location:all-components', 'the file name is built from every component of the colour', loc,
+              fail='the shared file of a single-colour tile is not named by all components of the colour')
